@@ -23,18 +23,7 @@ broadcast use {vstd::std_specs::hash::group_hash_axioms, vpre::group_string_keys
 pub type Structs = Map<String, StructInfo>;
 
 // ------------------------------------------------------------------ specification
-/// `n` names a Custom leaf of the type tree (any nesting depth, any constructor position)
-pub open spec fn has_custom(ts: TypeStructure, n: String) -> bool
-    decreases ts
-{
-    match ts {
-        TypeStructure::Custom(m) => m == n,
-        TypeStructure::Array(i) | TypeStructure::Set(i) | TypeStructure::Optional(i) | TypeStructure::Result(i) => has_custom(*i, n),
-        TypeStructure::Map { key, value } => has_custom(*key, n) || has_custom(*value, n),
-        TypeStructure::Tuple(ts2) => exists|i: int| 0 <= i < ts2@.len() && has_custom(#[trigger] ts2@[i], n),
-        TypeStructure::Primitive(_) => false,
-    }
-}
+//@ INCLUDE specs/customs.rs
 
 pub open spec fn fields_mention(fs: Seq<FieldInfo>, k: int, m: String) -> bool {
     exists|i: int| 0 <= i < k && i < fs.len() && has_custom((#[trigger] fs[i]).type_structure, m)
